@@ -197,12 +197,12 @@ class Program:
             return None
         return r[0]
 
-    def inlined(self, path, keep=None, private_only=False, nested=False):
+    def inlined(self, path, keep=None, private_only=False, nested=False, multi=False):
         """body with small single-caller helpers expanded in place (sa/inline.py); the plain body when there are none.
         keep: regex of callees that must stay calls; private_only: never expand `pub` items; nested: a helper called only from
-        helpers that were expanded into this body is expanded too"""
+        helpers that were expanded into this body is expanded too; multi: non-`pub` helpers shared by several functions are expanded as well"""
         from . import inline
-        return inline.inlined(self, path, keep=keep, private_only=private_only, nested=nested)
+        return inline.inlined(self, path, keep=keep, private_only=private_only, nested=nested, multi=multi)
 
     def find(self, regex):
         rx = re.compile(regex)
